@@ -388,6 +388,7 @@ func genDesc(r *hx.Rng, n int, model bool) desc {
 type outcome struct {
 	tris  [][3]int
 	pos   [][3]float64
+	sup   [][2]float64 // triangulation.SuperTriangle of the same input
 	crash string
 }
 
@@ -401,6 +402,9 @@ func runImpl(d desc) (o outcome) {
 			o.crash = fmt.Sprint(e)
 		}
 	}()
+	for _, v := range triangulation.SuperTriangle(append([]vector2.Float64(nil), pts...)) {
+		o.sup = append(o.sup, [2]float64{v.X(), v.Y()})
+	}
 	m := triangulation.BowyerWatson(pts)
 	idx := m.Indices()
 	if idx.Len()%3 != 0 {
@@ -566,7 +570,7 @@ func classify(ps []P, tris [][3]int) (bool, string, int) {
 }
 
 // ---------------------------------------------------------------- one case
-func coqCase(d desc, o outcome, posInt [][3]int64, needSpec, needCover bool) string {
+func coqCase(d desc, o outcome, posInt [][3]int64, supHalf [][2]int64, needSpec, needCover bool) string {
 	var b strings.Builder
 	fmt.Fprintf(&b, "CTri %s %s %s [", hx.CoqBool(d.Model), hx.CoqBool(needSpec), hx.CoqBool(needCover))
 	for i, p := range d.Pts {
@@ -588,6 +592,13 @@ func coqCase(d desc, o outcome, posInt [][3]int64, needSpec, needCover bool) str
 			b.WriteByte(';')
 		}
 		fmt.Fprintf(&b, "(%d,%d,%d)", p[0], p[1], p[2])
+	}
+	b.WriteString("]%Z [")
+	for i, p := range supHalf {
+		if i > 0 {
+			b.WriteByte(';')
+		}
+		fmt.Fprintf(&b, "(%d,%d)", p[0], p[1])
 	}
 	b.WriteString("]%Z")
 	return b.String()
@@ -618,7 +629,7 @@ func runCase(run *hx.Run, d desc, kind string) {
 	c.Key = string(kb)
 	if o.crash != "" {
 		c.GoFail = "Crash: " + o.crash
-		c.Coq = coqCase(desc{Pts: d.Pts}, outcome{}, nil, true, true)
+		c.Coq = coqCase(desc{Pts: d.Pts}, outcome{}, nil, nil, true, true)
 		run.Add(c)
 		return
 	}
@@ -639,6 +650,16 @@ func runCase(run *hx.Run, d desc, kind string) {
 			if v < 0 {
 				c.GoFail = "negative index"
 			}
+		}
+	}
+	// the super triangle in half grid units; anything else (not a half-unit value) is left out and
+	// then differs from the model's (correspondence only: the statement does not mention it)
+	var supHalf [][2]int64
+	for _, p := range o.sup {
+		x, okx := toUnit(2*p[0], d.Shift)
+		y, oky := toUnit(2*p[1], d.Shift)
+		if okx && oky {
+			supHalf = append(supHalf, [2]int64{x, y})
 		}
 	}
 	// metamorphic oracle: exact dyadic scaling / translation must not change the triangle set
@@ -664,9 +685,9 @@ func runCase(run *hx.Run, d desc, kind string) {
 	}
 	known := c.FailKey != ""
 	if c.GoFail != "" {
-		c.Coq = coqCase(desc{Pts: d.Pts}, outcome{}, nil, true, true)
+		c.Coq = coqCase(desc{Pts: d.Pts}, outcome{}, nil, nil, true, true)
 	} else {
-		c.Coq = coqCase(d, o, posInt, true, !known)
+		c.Coq = coqCase(d, o, posInt, supHalf, true, !known)
 	}
 	run.Count("gen:" + d.Gen)
 	switch n := len(ps); {
@@ -695,7 +716,7 @@ func runCase(run *hx.Run, d desc, kind string) {
 	d2 := d
 	d2.Model = false
 	c2 := hx.Case{Kind: kind + "-cover", Desc: d, Nontriv: false, Key: c.Key, FailKey: failKeyDrop}
-	c2.Coq = coqCase(d2, o, posInt, false, true)
+	c2.Coq = coqCase(d2, o, posInt, supHalf, false, true)
 	run.Add(c2)
 }
 
